@@ -5,6 +5,7 @@ import (
 	"os"
 	"path/filepath"
 	"strings"
+	"verif/harness/internal/run"
 
 	"gopkg.in/yaml.v3"
 )
@@ -74,7 +75,7 @@ func init() {
 	register("c15", Def{
 		Rule: "genattr: `gen attr -d N` listing; describe: user attribute file spelling every interval notation (6 marks x n<=N) x 21 roots x both accidental preferences through " +
 			"`info attr describe`; notation: every string over {b,#,0-9} up to length L as a user attribute degree through `info attr list`; chorddesc: 21 roots x 23 symbols x 2 " +
-			"preferences through `info chord describe`. quick N=22 L=3, thorough N=64 L=4. distinct = distinct (kind, input)",
+			"preferences through `info chord describe`; rootspell: 51 spellings of the root (ASCII and Unicode accidentals, strings that are no note name) through both describe commands. quick N=22 L=3, thorough N=64 L=4. distinct = distinct (kind, input)",
 		Exhaustive: true,
 		Gen: func(c *Ctx) []Case {
 			N, L := 22, 3
@@ -101,10 +102,42 @@ func init() {
 					}
 				}
 			}
+			// how the root is spelled: the Unicode signs the chord text accepts, and strings that are not a note name at all
+			roots := []string{"H", "c", "C##", "Cbb", "C#b", "xxCyy", "C #", "C#m", "Db7", " C", "CC", "♯C", "C♮", "", "C𝄪", "1"}
+			for _, l := range "CDEFGAB" {
+				roots = append(roots, string(l), string(l)+"#", string(l)+"b", string(l)+"♯", string(l)+"♭")
+			}
+			for _, r := range roots {
+				cases = append(cases, Case{"cmd": "rootspell", "root": r, "via": "attr"}, Case{"cmd": "rootspell", "root": r, "via": "chord"})
+			}
 			return cases
 		},
 		Exec: func(c *Ctx, k Case) []Rec {
 			switch cs(k, "cmd") {
+			case "rootspell":
+				root, via := cs(k, "root"), cs(k, "via")
+				rec := Rec{"kind": "rootspell", "sub": via, "root": chars(root), "via": via, "ok": false, "outRoot": []int{}, "applied": []int{}}
+				var r run.Result
+				if via == "attr" {
+					r = c.crd([]string{"info", "attr", "describe", "-t", "Major3", "-r", root}, nil)
+					var ai yAttrInfo
+					if r.Exit == 0 && len(r.Stdout) > 0 && yaml.Unmarshal(r.Stdout, &ai) == nil && ai.Attribute.Name != "" {
+						rec["ok"], rec["outRoot"], rec["applied"] = true, chars(ai.Root), chars(ai.Applied)
+					}
+				} else {
+					r = c.crd([]string{"info", "chord", "describe", "-t", root + "m"}, nil)
+					var ci yChordInfo
+					if r.Exit == 0 && len(r.Stdout) > 0 && yaml.Unmarshal(r.Stdout, &ci) == nil && ci.Chord.Name != "" {
+						rec["ok"], rec["outRoot"] = true, chars(ci.Root)
+						for _, a := range ci.Attributes {
+							if a.Attribute.Name == "Minor3" {
+								rec["applied"] = chars(a.Applied)
+							}
+						}
+					}
+				}
+				rec["terminated"], rec["panic"], rec["stdoutLen"], rec["stderrLen"] = !r.TimedOut, r.Panic, len(r.Stdout), len(r.Stderr)
+				return []Rec{rec}
 			case "genattr":
 				r := c.crd([]string{"gen", "attr", "-d", fmt.Sprint(ci(k, "d"))}, nil)
 				var attrs []yAttr
